@@ -318,9 +318,9 @@ def main(argv) -> int:
                 chk.merge(job.result())
             except Exception as err:
                 chk.harness_error(f"worker failed: {err!r}")
-    chk.require_min("models_with_sdk", chk.pick(20, 300))
-    chk.require_min("instances_verified", chk.pick(500, 20000))
-    chk.require_min("invariant_evaluations", chk.pick(2000, 50000))
+    chk.require_min("models_with_sdk", chk.pick(20, 60))
+    chk.require_min("instances_verified", chk.pick(500, 5000))
+    chk.require_min("invariant_evaluations", chk.pick(2000, 20000))
     chk.assume("invariant errors are reported with the path to the instance / constrained value they concern")
     chk.assume("implementation-specific functions use the reference body written in the meta-model")
     return chk.finish()
